@@ -1,5 +1,207 @@
-import ChemProofs.Model.Brain
-import ChemProofs.Spec.IsoDist
+/-
+C03 — the BRAIN recurrences compute the coefficients of a product of polynomials
+(Newton's identities, exact rational arithmetic).  Everything below is fully proved
+(axioms: propext, Classical.choice, Quot.sound only).
+
+Vocabulary (ChemProofs/Lemmas/BrainDefs.lean):
+  toPS l = Σ l_i x^i,   fE esp = Σ (−1)^i esp_i x^i  (if esp = vietes (reverse P): P(x)/P(0)),
+  IsPS F P :⇔ F·P + X·F' = 0   (P is the power-sum series −X·F'/F of F),
+  PsInv esp ps / EspInv ps esp order: every entry is what nextPowerSum / nextEsp computes from the
+  entries before it (established for updatePowerSum / updateEsp / espOfPs in Lemmas/BrainLists.lean),
+  Dom e: gap-free isotope ladder with keys elemNum, elemNum+1, … (what the key walk of
+  isotopic_coefficients visits, defect D5), lightest isotope = reference (shift 0),
+  minShift = 0, maxShift = n − 1;   c0 e one = Pₑ(0),  m0 e one = Mₑ(0).
+
+Where the results are:
+  Lemmas/BrainNewton.lean   IsPS.mul, IsPS.pow                (N2, power-series form: power sums add
+                            under products, scale under powers), IsPS.ps_unique, IsPS.esp_unique
+                            (uniqueness mod X^N both ways), PsInv.dvd, EspInv.dvd (the list
+                            recurrences ARE the coefficient identities of F·P + X·F' = 0)
+  Lemmas/BrainProb.lean     updateEsp_updatePowerSum, updatePowerSum_updateEsp        (N1, both ways)
+                            powerSum_add_of_mul, powerSum_smul_of_pow, powerSum_polyMul (N2, lists)
+                            probabilityVector_of_good, probabilityVector_spec              (N3)
+  Lemmas/BrainIso.lean      isotopicCoefficients_of_dom, elemPoly_of_dom   (Dom ⇒ isotopic_coefficients
+                            returns the reversed Spec.elemPoly, with and without masses)
+  Lemmas/BrainPopulate.lean populate_good, populate_good_mass (populate succeeds, constants are good)
+  Lemmas/BrainSpecPS.lean, BrainSpecMass.lean   Spec.polyMul/polyPow/aggProb/aggMass = power-series
+                            arithmetic up to the truncation degree
+  Lemmas/BrainMass.lean     centerMassVector_of_good, centerNum_eq, centerMassVector_spec          (N4)
+  this file                 rawVariants_spec (N3 + N4 combined on `rawVariants`), non-vacuity examples
+
+Hypotheses that are really needed (and are spelled out in the statements):
+  * `order ≤ maxVariants` (otherwise `nextEsp` truncates);
+  * (N3) equal symbols ⇒ equal elements; (N4) pairwise distinct symbols (`phi_mass_for` subtracts 1
+    from EVERY entry carrying the element's symbol, so a repeated entry would be off);
+  * (N4) recorded `mostMass` = mass of the lightest isotope, and Mₑ(0) ≠ 0, Pₑ(0) ≠ 0, base ≠ 0.
+Not proved here: nothing about `cutLoop` / `sortByMz` / `resolveOrder` (those are C08/C09 territory).
+-/
+import ChemProofs.Lemmas.BrainMass
+
 namespace Chem
-theorem placeholder_C03 : True := trivial
+open PowerSeries
+
+/-- (N3 + N4 together) the peaks of `rawVariants` (before the cut and the sort): intensities are
+    the exact aggregated probabilities normalised over the `order + 1` computed variants, m/z
+    values are the charged exact centre masses `aggMass j / aggProb j`. -/
+theorem rawVariants_spec (K : BrainConsts) (c : List (Elem × Nat)) (order : Nat) (z : Int)
+    (carrier : Rat)
+    (hdom : ∀ x ∈ c, Dom x.1) (hc0 : ∀ x ∈ c, c0 x.1 K.one ≠ 0) (hm0 : ∀ x ∈ c, m0 x.1 K.one ≠ 0)
+    (hmm : ∀ x ∈ c, x.1.isos.head?.map (·.mass) = some x.1.mostMass)
+    (hnodup : (c.map fun x => x.1.sym).Nodup)
+    (hV : (order : Int) ≤ maxVariants (toB c)) (hbase : baseIntensity (toB c) K.one ≠ 0) :
+    ∃ consts peaks, populate K (toB c) (order : Int) = .ok consts ∧
+      rawVariants K consts (toB c) order z carrier = .ok peaks ∧ peaks.length = order + 1 ∧
+      ∀ i (hi : i < peaks.length),
+        peaks[i].int = (Spec.aggProb c K.one order).getD i 0 /
+          ((List.range (order + 1)).map fun j => (Spec.aggProb c K.one order).getD j 0).sum ∧
+        peaks[i].mz = chargedMz
+          ((Spec.aggMass c K.one order).getD i 0 / (Spec.aggProb c K.one order).getD i 0) z carrier := by
+  have hsym : ∀ x ∈ c, ∀ y ∈ c, x.1.sym = y.1.sym → x.1 = y.1 := by
+    intro x hx y hy h
+    rw [List.inj_on_of_nodup_map hnodup hx hy h]
+  obtain ⟨consts, prob, hpop, hprob, hplen, hpval⟩ :=
+    probabilityVector_spec K c order (baseIntensity (toB c) K.one) hdom hc0 hsym hV
+  obtain ⟨consts', cm, hpop', hcm, hclen, hcval⟩ :=
+    centerMassVector_spec K c order (baseIntensity (toB c) K.one) prob hdom hc0 hm0 hmm hnodup hV
+      hbase hplen hpval
+  have hcc : consts' = consts := by
+    rw [hpop] at hpop'; exact (Res.ok.inj hpop').symm
+  subst hcc
+  have hprod : (c.map fun x : Elem × Nat => c0 x.1 K.one ^ x.2).prod ≠ 0 := by
+    apply List.prod_ne_zero
+    intro h0
+    obtain ⟨x, hx, hx0⟩ := List.mem_map.mp h0
+    exact pow_ne_zero _ (hc0 x hx) hx0
+  have hk : baseIntensity (toB c) K.one / (c.map fun x : Elem × Nat => c0 x.1 K.one ^ x.2).prod ≠ 0 :=
+    div_ne_zero hbase hprod
+  generalize baseIntensity (toB c) K.one / (c.map fun x : Elem × Nat => c0 x.1 K.one ^ x.2).prod = κ
+    at hk hpval
+  have hpeq : prob = (List.range (order + 1)).map fun j => κ * (Spec.aggProb c K.one order).getD j 0 := by
+    apply list_eq_of_getD (by rw [List.length_map, List.length_range, hplen])
+    intro i hi
+    rw [hpval i (by omega),
+      List.getD_eq_getElem ((List.range (order + 1)).map fun j =>
+        κ * (Spec.aggProb c K.one order).getD j 0) 0
+        (by rw [List.length_map, List.length_range]; omega),
+      List.getElem_map, List.getElem_range]
+  have hsum : prob.sum =
+      κ * ((List.range (order + 1)).map fun j => (Spec.aggProb c K.one order).getD j 0).sum := by
+    rw [hpeq, List.sum_map_mul_left]
+  refine ⟨consts', ((cm.zip prob).take (order + 1)).map fun (m, p) =>
+    ({ mz := chargedMz m z carrier, int := p / prob.sum } : Peak), hpop, ?_, ?_, ?_⟩
+  · unfold rawVariants
+    simp only
+    rw [hprob]
+    show (centerMassVector _ _ _ _ _ _ prob).bind _ = _
+    rw [hcm]
+    rfl
+  · simp [hclen, hplen]
+  · intro i hi
+    have hi' : i < order + 1 := by simpa [hclen, hplen] using hi
+    simp only [List.getElem_map, List.getElem_take, List.getElem_zip]
+    refine ⟨?_, ?_⟩
+    · rw [← List.getD_eq_getElem prob 0 (by omega), hpval i (by omega), hsum,
+        mul_div_mul_left _ _ hk]
+    · rw [← List.getD_eq_getElem cm 0 (by omega), hcval i (by omega)]
+
+/-! ## non-vacuity: a hand-made composition inside the domain -/
+
+/-- a two-isotope element (keys 1, 2 = `elemNum`, `elemNum + 1`; abundances 0.9 / 0.1) -/
+def exH : Elem :=
+  { tkey := [72], sym := [72],
+    isos := [{ key := 1, mass := 10, abund := 9, neutrons := 1, shift := 0 },
+             { key := 2, mass := 20, abund := 1, neutrons := 2, shift := 1 }],
+    mostIso := 1, mostMass := 10, minShift := 0, maxShift := 1, elemNum := 1 }
+
+/-- a three-isotope element (abundances 0.6 / 0.3 / 0.1) -/
+def exQ : Elem :=
+  { tkey := [81], sym := [81],
+    isos := [{ key := 5, mass := 50, abund := 6, neutrons := 5, shift := 0 },
+             { key := 6, mass := 61, abund := 3, neutrons := 6, shift := 1 },
+             { key := 7, mass := 69, abund := 1, neutrons := 7, shift := 2 }],
+    mostIso := 5, mostMass := 50, minShift := 0, maxShift := 2, elemNum := 5 }
+
+def exK : BrainConsts :=
+  { one := 10, lambdaFactor := 1 / 1800, maxIter := 100, guessCap := 100,
+    guessFraction := 999 / 1000, cut := 0 }
+
+def exComp : List (Elem × Nat) := [(exH, 3), (exQ, 2)]
+
+def normalise (l : List Rat) : List Rat := l.map (· / l.sum)
+
+theorem exH_dom : Dom exH :=
+  ⟨by decide, by decide, by decide, rfl, rfl⟩
+
+theorem exQ_dom : Dom exQ :=
+  ⟨by decide, by decide, by decide, rfl, rfl⟩
+
+/-- the intensities `brainVariants` returns for H₃Q₂ (5 peaks requested) are the normalised exact
+    aggregated distribution -/
+theorem brainVariants_example_intensities :
+    (match brainVariants exK (toB exComp) (.fixed 5) 0 0 with
+      | .ok peaks => some (intensities peaks)
+      | _ => none) = some (normalise (Spec.aggProb exComp 10 4)) := by decide +kernel
+
+/-- … and the m/z values are the probability-weighted centre masses `aggMass / aggProb` -/
+theorem brainVariants_example_masses :
+    (match brainVariants exK (toB exComp) (.fixed 5) 0 0 with
+      | .ok peaks => some (peaks.map (·.mz))
+      | _ => none) =
+      some ((Spec.aggMass exComp 10 4).zipWith (· / ·) (Spec.aggProb exComp 10 4)) := by
+  decide +kernel
+
+/-- the hypotheses of `probabilityVector_spec` are satisfiable: its instance at the example -/
+theorem probabilityVector_example (base : Rat) :
+    ∃ consts v, populate exK (toB exComp) 4 = .ok consts ∧
+      probabilityVector consts (toB exComp) 4 (maxVariants (toB exComp)) base = .ok v ∧
+      v.length = 5 ∧
+      ∀ i, i ≤ 4 → v.getD i 0 =
+        base / (exComp.map fun x => c0 x.1 exK.one ^ x.2).prod *
+          (Spec.aggProb exComp exK.one 4).getD i 0 := by
+  have hmem : ∀ x ∈ exComp, x = (exH, 3) ∨ x = (exQ, 2) := by
+    intro x hx; simpa [exComp] using hx
+  refine probabilityVector_spec exK exComp 4 base ?_ ?_ ?_ ?_
+  · intro x hx
+    rcases hmem x hx with rfl | rfl
+    · exact exH_dom
+    · exact exQ_dom
+  · intro x hx
+    rcases hmem x hx with rfl | rfl <;> decide +kernel
+  · intro x hx y hy h
+    rcases hmem x hx with rfl | rfl <;> rcases hmem y hy with rfl | rfl
+    · rfl
+    · exact absurd h (by decide)
+    · exact absurd h (by decide)
+    · rfl
+  · decide
+
+
+/-- the hypotheses of `rawVariants_spec` (hence of `centerMassVector_spec`) are satisfiable: its
+    instance at the example composition H₃Q₂ -/
+theorem rawVariants_example (z : Int) (carrier : Rat) :
+    ∃ consts peaks, populate exK (toB exComp) 4 = .ok consts ∧
+      rawVariants exK consts (toB exComp) 4 z carrier = .ok peaks ∧ peaks.length = 5 ∧
+      ∀ i (hi : i < peaks.length),
+        peaks[i].int = (Spec.aggProb exComp exK.one 4).getD i 0 /
+          ((List.range 5).map fun j => (Spec.aggProb exComp exK.one 4).getD j 0).sum ∧
+        peaks[i].mz = chargedMz
+          ((Spec.aggMass exComp exK.one 4).getD i 0 / (Spec.aggProb exComp exK.one 4).getD i 0)
+          z carrier := by
+  have hmem : ∀ x ∈ exComp, x = (exH, 3) ∨ x = (exQ, 2) := by
+    intro x hx; simpa [exComp] using hx
+  refine rawVariants_spec exK exComp 4 z carrier ?_ ?_ ?_ ?_ ?_ ?_ ?_
+  · intro x hx
+    rcases hmem x hx with rfl | rfl
+    · exact exH_dom
+    · exact exQ_dom
+  · intro x hx
+    rcases hmem x hx with rfl | rfl <;> decide +kernel
+  · intro x hx
+    rcases hmem x hx with rfl | rfl <;> decide +kernel
+  · intro x hx
+    rcases hmem x hx with rfl | rfl <;> rfl
+  · decide
+  · decide
+  · decide +kernel
+
 end Chem
